@@ -1084,7 +1084,9 @@ fn quote_from_trait(input: &DataType, ctx: &ImplContext, pre_init: Option<TokenS
 
 fn quote_try_from_trait(input: &DataType, ctx: &ImplContext, pre_init: Option<TokenStream>, init: TokenStream) -> TokenStream {
     let QuoteTraitParams { attr, impl_attr, inner_attr, dst, src, these_gens, those_gens, impl_gens, where_clause, r } = get_quote_trait_params(input, ctx);
-    let err_ty = &ctx.struct_attr.err_ty.as_ref().unwrap().path;
+    let err_ty = ctx.struct_attr.err_ty.as_ref().unwrap();
+    let (err_path, err_gens) = (&err_ty.path, &err_ty.generics);
+    let err_ty = &quote!(#err_path #err_gens);
     quote! {
         #impl_attr
         impl #impl_gens ::core::convert::TryFrom<#r #src #those_gens> for #dst #these_gens #where_clause {
@@ -1129,7 +1131,9 @@ fn quote_into_trait(input: &DataType, ctx: &ImplContext, pre_init: Option<TokenS
 
 fn quote_try_into_trait(input: &DataType, ctx: &ImplContext, pre_init: Option<TokenStream>, init: TokenStream, post_init: Option<TokenStream>) -> TokenStream {
     let QuoteTraitParams { attr, impl_attr, inner_attr, dst, src, these_gens, those_gens, impl_gens, where_clause, r } = get_quote_trait_params(input, ctx);
-    let err_ty = &ctx.struct_attr.err_ty.as_ref().unwrap().path;
+    let err_ty = ctx.struct_attr.err_ty.as_ref().unwrap();
+    let (err_path, err_gens) = (&err_ty.path, &err_ty.generics);
+    let err_ty = &quote!(#err_path #err_gens);
 
     let body = match post_init {
         Some(post_init) => quote! {
@@ -1175,7 +1179,9 @@ fn quote_into_existing_trait(input: &DataType, ctx: &ImplContext, pre_init: Opti
 
 fn quote_try_into_existing_trait(input: &DataType, ctx: &ImplContext, pre_init: Option<TokenStream>, init: TokenStream, post_init: Option<TokenStream>) -> TokenStream {
     let QuoteTraitParams { attr, impl_attr, inner_attr, dst, src, these_gens, those_gens, impl_gens, where_clause, r } = get_quote_trait_params(input, ctx);
-    let err_ty = &ctx.struct_attr.err_ty.as_ref().unwrap().path;
+    let err_ty = ctx.struct_attr.err_ty.as_ref().unwrap();
+    let (err_path, err_gens) = (&err_ty.path, &err_ty.generics);
+    let err_ty = &quote!(#err_path #err_gens);
     quote! {
         #impl_attr
         impl #impl_gens o2o::traits::TryIntoExisting<#dst #those_gens> for #r #src #these_gens #where_clause {
